@@ -25,6 +25,7 @@ type Run struct {
 	Obs       *Obs // last full observation (nil: stale)
 	VL        VList
 	seenSig   map[string]bool
+	pendingIO *IOFault
 	Shapes    map[string]bool // command shape × outcome
 	States    map[string]bool // distinct model states at quiescent points
 	Effects   int             // mutations that took effect
@@ -309,7 +310,58 @@ func (r *Run) DoCmd(c Cmd) *Proc {
 	preClass := r.preClass(c)
 	shape := c.Shape()
 	evBefore := r.W.Count["fault.short_write"] + r.W.Count["fault.short_read"] + r.W.Count["fault.stdin_chunk"]
+	ioFired := false
+	if f := r.pendingIO; f != nil {
+		r.pendingIO = nil
+		seen, armed, wrote := 0, false, false
+		r.W.Rule = func(p *Proc, e *Ev) (string, bool) {
+			if !strings.Contains(e.Path, ".jsonl") {
+				return "", false
+			}
+			op := e.Op
+			if wrote && (op == "read" || op == "pread" || op == "openat") {
+				// after the command's first write only writes are failed: what a
+				// command owes its caller when it cannot re-read its own result
+				// is not stated anywhere
+				return "", false
+			}
+			if op == "write" || op == "pwrite" || op == "rename" {
+				defer func() { wrote = true }()
+			}
+			if op == "pwrite" {
+				op = "write"
+			}
+			if op == "pread" {
+				op = "read"
+			}
+			if armed && op == "write" {
+				armed = false
+				return fmt.Sprintf("err:%d", f.Errno), true
+			}
+			if op != f.Call || ioFired {
+				return "", false
+			}
+			if f.Call == "openat" && e.Flags&(syscall.O_WRONLY|syscall.O_RDWR) == 0 && f.Errno == int(syscall.ENOSPC) {
+				return "", false
+			}
+			seen++
+			if seen-1 != f.Nth {
+				return "", false
+			}
+			ioFired = true
+			r.W.Count.Inc("fault.io_" + f.Call)
+			if f.Call == "write" && f.Short > 0 && f.Short < e.Len {
+				armed = true
+				return fmt.Sprintf("short:%d", f.Short), true
+			}
+			return fmt.Sprintf("err:%d", f.Errno), true
+		}
+	}
 	p := r.W.RunOne(r.spec(c))
+	r.W.Rule = nil
+	if ioFired {
+		r.Faults++
+	}
 	r.Faults += r.W.Count["fault.short_write"] + r.W.Count["fault.short_read"] + r.W.Count["fault.stdin_chunk"] - evBefore
 	reply, ok := r.checkProcess(c, p)
 	r.Shapes[shape+"|"+preClass+"|"+fmt.Sprint(ok)] = true
@@ -345,7 +397,9 @@ func (r *Run) DoCmd(c Cmd) *Proc {
 
 	if !ok {
 		// the command failed (or crashed)
-		if pred.Class == MustOK {
+		if pred.Class == MustOK && !ioFired {
+			// (an injected I/O error is a legitimate reason to fail; what the
+			// failure may leave behind is judged below all the same)
 			r.viol(orDefault(pred.Prop, "C10"), "rejected-valid", shape+"|@"+preClass, "%s in state %s should succeed but failed: %s", c.String(), preClass, tail(p.Stderr))
 		}
 		// C10: nothing may have changed
@@ -355,7 +409,7 @@ func (r *Run) DoCmd(c Cmd) *Proc {
 		} else if logChanged {
 			r.viol("C10", "failed-but-wrote", shape+"|@"+preClass, "%s failed (%s) yet the log changed (%d -> %d bytes)", c.String(), tail(p.Stderr), len(pre.LogBytes), len(post.LogBytes))
 		}
-		if dirListSansLock(pre.DirList) != dirListSansLock(post.DirList) && !logChanged {
+		if dirListSansLock(pre.DirList) != dirListSansLock(post.DirList) && !logChanged && !ioFired {
 			r.viol("C10", "failed-but-touched-dir", shape, "%s failed yet .ergo changed: %s -> %s", c.String(), pre.DirList, post.DirList)
 		}
 		r.afterStep(post)
@@ -975,6 +1029,12 @@ func (r *Run) DoFile(f *FileOp) {
 	os.MkdirAll(filepath.Dir(full), 0o755)
 	switch f.Kind {
 	case "file":
+		var keep *time.Time
+		if st, err := os.Stat(full); err == nil && f.KeepMeta {
+			t := st.ModTime()
+			keep = &t
+			r.W.Count.Inc("fault.rewrite_same_mtime")
+		}
 		os.Remove(full)
 		if err := os.WriteFile(full, []byte(f.Content), 0o644); err != nil {
 			harnessf("file op: %v", err)
@@ -982,6 +1042,9 @@ func (r *Run) DoFile(f *FileOp) {
 		// the file's mtime is recorded by ergo as evidence: take it from the
 		// simulated clock, not from the real one
 		mt := time.Unix(0, r.W.Clock.Now).UTC()
+		if keep != nil {
+			mt = *keep
+		}
 		os.Chtimes(full, mt, mt)
 	case "dir":
 		os.MkdirAll(full, 0o755)
